@@ -17,7 +17,11 @@ Open Scope Z_scope.
      Cancel k        cancel() of the innermost enclosing block's own ctx
      Save n k        if err := tx.SavePoint(n).Error; err != nil { return err }
      RbTo n k        if err := tx.RollbackTo(n).Error; err != nil { return err }          *)
+(* Panic p: panic(v) with the harness' value number p >= 0; p = -1: panic(nil) (recover() yields
+   nil: the binary is built with go < 1.21 panic semantics); p = -2: runtime.Goexit() — the
+   deferred functions run as for a panic but no recover() stops it *)
 Inductive outcome := RetNil | RetErr (e : Z) | Panic (p : Z).
+Definition recovers (rcv : bool) (p : Z) : bool := rcv && negb (p =? -2).
 Inductive prog :=
 | Done (o : outcome)
 | Write (m : Z) (chk : bool) (k : prog)
@@ -306,7 +310,7 @@ Fixpoint run_body (p : prog) (h : option err) (s : st) : res * list obs * option
       if chk then (RErr e, [o], h1, s1)
       else let '(r', l, h2, s2) := run_body k h1 s1 in (r', o :: l, h2, s2)
     | RPan p =>
-      if rcv then let '(r', l, h2, s2) := run_body k h1 s1 in (r', o :: l, h2, s2)
+      if recovers rcv p then let '(r', l, h2, s2) := run_body k h1 s1 in (r', o :: l, h2, s2)
       else (RPan p, [o], h1, s1)
     end
   | Save n k =>
